@@ -151,4 +151,13 @@ def trace_laws(tr, module):
     if tr.throws:
         out.append(("returned-after-error-thrown-into-lexer",
                     f"{tr.throws} throw(s) into the lexer, yet a module came back"))
+    # coverage law: a module may only come back after the END statement was
+    # consumed or after the lexer ran through the whole text
+    last = tr.fresh[-1][0] if tr.fresh else None
+    ended = last is not None and last.casefold() == "end"
+    if not ended and not tr.eof:
+        out.append(("returned-before-the-end-of-the-text",
+                    f"module returned after the token {last!r:.40} although the "
+                    "lexer had not reached the end of the text and no END "
+                    "statement was read"))
     return out
